@@ -269,9 +269,56 @@ func (it *Interp) store(c *Cell, v Value) {
 			lc.storeRaw(v)
 			return
 		}
+		if c.epoch == 0 && !it.initMode {
+			// heap memory allocated during package initialisation and shared by
+			// all paths: the path gets a private overlay (copy on write)
+			it.cowStore(c, v)
+			return
+		}
 		it.unsupported("store to frozen (package-level, initialised) memory of type " + typeStr(c.typ))
 	}
 	c.storeRaw(v)
+}
+
+func (it *Interp) cowStore(c *Cell, v Value) {
+	if !c.agg {
+		if it.cow == nil {
+			it.cow = map[*Cell]Value{}
+		}
+		it.cow[c] = v
+		return
+	}
+	a, ok := v.Ref.(*Agg)
+	if !ok {
+		if p, isP := v.Ref.(*poisonT); isP {
+			for _, s := range c.sub {
+				it.cowStore(s, Value{Ref: p})
+			}
+			return
+		}
+		panic(fmt.Sprintf("store: aggregate cell of %v gets non-aggregate %T", c.typ, v.Ref))
+	}
+	for i, s := range c.sub {
+		it.cowStore(s, a.v[i])
+	}
+}
+
+// loadCell reads a cell through the path's copy-on-write overlay.
+func (it *Interp) loadCell(c *Cell) Value {
+	if it.cow == nil || c.epoch != 0 {
+		return c.load()
+	}
+	if !c.agg {
+		if v, ok := it.cow[c]; ok {
+			return v
+		}
+		return c.v
+	}
+	a := &Agg{v: make([]Value, len(c.sub))}
+	for i, s := range c.sub {
+		a.v[i] = it.loadCell(s)
+	}
+	return Value{Ref: a}
 }
 
 // ---- path-local copies of package-level variables ----
